@@ -43,13 +43,15 @@ Inductive pcode :=
 | PTrue | PFalse
 | PModEq (m r : Z)     (* fint x mod m = r  (m > 0) *)
 | PLt (c : Z)          (* fint x < c *)
-| PEq (c : Z).
+| PEq (c : Z)
+| PIn (l : list Z).   (* fint x is one of l *)
 Definition interp_p (p : pcode) (v : val) : bool :=
   match p with
   | PTrue => true | PFalse => false
   | PModEq m r => (fint v mod m =? r)
   | PLt c => fint v <? c
   | PEq c => fint v =? c
+  | PIn l => existsb (Z.eqb (fint v)) l
   end.
 
 Inductive fcode :=
